@@ -379,6 +379,29 @@ def run(rep):
                       trusted=['Lean 4.33 kernel', 'tools/py2lean.py (validated by correspondence on every run)', 'harness/props/C06.py'])
 
 
+PROVIDER_BASES = {'hybrid-free-pole': ('PWNormGPD', 'HybridFreePoleCFF'), 'hybrid-fixed-pole': ('PWNormGPD', 'HybridFixedPoleCFF'),
+                  'dispersive': ('DispersionFixedPoleCFF',), 'mellin-barnes': ('PWNormGPD', 'MellinBarnesCFF')}
+
+
 def replay(path):
+    import json
+    d = json.load(open(path))
     print(open(path).read()[:3000])
+    if 'provider' in d and 'term' in d and 'kinematics' in d:
+        # re-evaluate the case of the substitution stream on the current tree: exit 1 while it still fails
+        import gepard as g
+        kind, pset = d['provider'].split('/')
+        eff = g.eff.DipoleEFF if pset in ('KM10', 'KM09a') else g.eff.KellyEFF
+        bases = (eff,) + tuple(getattr(g, b) for b in PROVIDER_BASES[kind]) + (getattr(g, d['set']),)
+        th = type('Replay', bases, {})()
+        th.parameters.update(d['parameters'])
+        pt, kin = B.prepared(d['kinematics'])
+        m = {nm: float(getattr(th, nm)(kin)) for nm in ['ReH', 'ImH', 'ReE', 'ImE', 'ReHt', 'ImHt', 'ReEt', 'ImEt']}
+        m['F1'], m['F2'] = float(th.F1(kin)), float(th.F2(kin))
+        got = float(getattr(th, d['term'])(kin))
+        want = float(getattr(B.theory(d['set'], m), d['term'])(kin))
+        bad = abs(got - want) > 1e-9 * max(abs(want), 1e-300)
+        print('replayed on the current tree: %s = %r, constant-CFF theory with the reported values = %r -> %s'
+              % (d['term'], got, want, 'STILL FAILS' if bad else 'holds now'))
+        return 1 if bad else 0
     return 0
